@@ -315,6 +315,8 @@ func vBez3(p0, p1, p2, p3, t Fl) Fl {
 //@   nopanic
 //@   requires c != nil
 //@   modifies *c, c.points[..], c.path[..]
+// the items handed out are a COPY of the parser's buffer: the parser is reused for the next path of the document
+//@   ensures[result-is-a-copy] result1 == nil ==> len(result0) == len(c.path) && (len(result0) == 0 || !samebase(result0, c.path))
 //@   loop 1 invariant -1 <= lastIndex && lastIndex <= rangeindex && rangeindex < len(data) && fresh(data) && (fresh(c.path) || samebase(c.path, old(c.path))) && (fresh(c.points) || samebase(c.points, old(c.points)))
 //@   loop 1 decreases len(data) - rangeindex
 
